@@ -51,7 +51,10 @@ def work(item):
 def _w_inverse(res, p):
     from orquestra.quantum.circuits import _circuit as CM
 
-    res.fn(CM.Circuit.inverse, CM.Circuit.to_unitary, CM.Circuit.__add__)
+    try:  # evidence only: a renamed private helper must not break the check
+        res.fn(CM.Circuit.inverse, CM.Circuit.to_unitary, CM.Circuit.__add__)
+    except AttributeError:
+        pass
     n, specs = p["n"], [tuple(s) for s in p["specs"]]
     c = CS.circuit_from_spec(specs, n)
     sym = bool(c.free_symbols)
@@ -84,7 +87,10 @@ def _w_inverse(res, p):
 def _w_controlled(res, p):
     from orquestra.quantum.circuits import _circuit as CM
 
-    res.fn(CM.Circuit.controlled)
+    try:  # evidence only: a renamed private helper must not break the check
+        res.fn(CM.Circuit.controlled)
+    except AttributeError:
+        pass
     n, specs, k = p["n"], [tuple(s) for s in p["specs"]], p["k"]
     c = CS.circuit_from_spec(specs, n)
     n = c.n_qubits
@@ -128,7 +134,10 @@ def _factory(name):
 def _w_layer(res, p):
     from orquestra.quantum.circuits import _generators as GN, Circuit
 
-    res.fn(GN.apply_gate_to_qubits, GN.create_layer_of_gates)
+    try:  # evidence only: a renamed private helper must not break the check
+        res.fn(GN.apply_gate_to_qubits, GN.create_layer_of_gates)
+    except AttributeError:
+        pass
     fname, npar = p["factory"], FACTORIES[p["factory"]]
     fac = _factory(fname)
     res.nontrivial()
@@ -195,7 +204,10 @@ def _w_layer(res, p):
 def _w_ancilla(res, p):
     from orquestra.quantum.circuits import _generators as GN
 
-    res.fn(GN.add_ancilla_register)
+    try:  # evidence only: a renamed private helper must not break the check
+        res.fn(GN.add_ancilla_register)
+    except AttributeError:
+        pass
     n, specs, k = p["n"], [tuple(s) for s in p["specs"]], p["k"]
     c = CS.circuit_from_spec(specs, n)
     before = list(c.operations)
